@@ -201,6 +201,12 @@ pub fn dash_path(path: &Path, dash_array: &[f32], dash_offset: f32) -> Path {
 
                     // reset the dash state
                     state = initial;
+
+                    // a segment that follows the close starts a new subpath at the
+                    // start point: don't continue from wherever the last dash ended
+                    dashed.move_to(start_point.x, start_point.y);
+                    is_first_segment = true;
+                    first_dash = true;
                 } else {
                     cur_pt = None;
                 }
